@@ -1,5 +1,6 @@
 use crate::common::{Acc, Ctx, Report};
 
+pub mod authhist;
 pub mod c01;
 pub mod c02;
 pub mod c03;
